@@ -203,8 +203,11 @@ def ns(**kw):
     return types.SimpleNamespace(**kw)
 
 
-def make_server(config, name="srv.example", port=70):
-    return ns(server_name=name, server_port=port, config=config)
+SERVER_PORT = 70  # obligations about "this server's port" set another value for their run
+
+
+def make_server(config, name="srv.example", port=None):
+    return ns(server_name=name, server_port=(SERVER_PORT if port is None else port), config=config)
 
 
 _TLS_CLS = None
